@@ -48,7 +48,11 @@ impl Prop for EditorQueries {
             let src: String = src.chars().take(700).collect();
             TextCase { origin: "generated".into(), text: apply(&src, &[Mut::Prefix(cut)]), n_muts: 1 }
         });
-        prop_oneof![4 => prefix_of_corpus, 2 => prefix_of_generated, 1 => text_strategy(max_base, 5)].boxed()
+        let small = (proptest::collection::vec(any::<u16>(), 4..30), any::<bool>(), any::<u16>()).prop_map(|(tape, which, cut)| {
+            let src = if which { selfref_text(&tape) } else { mlstring_text(&tape) };
+            TextCase { origin: "grammar".into(), text: apply(&src, &[Mut::Prefix(cut | 0x8000)]), n_muts: 1 }
+        });
+        prop_oneof![4 => prefix_of_corpus, 2 => prefix_of_generated, 1 => text_strategy(max_base, 5), 1 => small].boxed()
     }
     fn fixed_cases(&self, tier: Tier, _f: &Findings) -> Vec<Self::Case> {
         // every prefix of a few small programs (the "program being typed" scenario)
